@@ -28,7 +28,7 @@ structure OutInv (P : OutParams) (st : LoopSt) : Prop where
   curr : recvBy P.dstIndex st.out st.dstIdx + slotsNum st.curSlots = st.curNum
   later : ∀ j, st.dstIdx < j → recvBy P.dstIndex st.out j = 0
   shape : ∀ ms ∈ st.out, ∃ j, j < P.dstMasterNum ∧ ms.mm.dstChunk = P.srcChunkNum + j / 2 ∧
-    ms.mm.dstPart = j % 2 ∧ ms.mm.srcPart < 2 ∧ ms.mm.epoch = P.epoch
+    ms.mm.dstPart = j % 2 ∧ ms.mm.srcPart < 2 ∧ ms.mm.epoch = P.epoch ∧ compact ms.ranges = ms.ranges
 
 /-- state invariant between and inside the inner loops -/
 structure StInv (P : OutParams) (st : LoopSt) : Prop where
@@ -65,7 +65,7 @@ structure WhilePost (P : OutParams) (srcChunk srcPart : Nat) (rl : RangeList) (s
 
 /-- emitting a task keeps the bookkeeping: destination completed -/
 theorem outInv_emit_done {P : OutParams} {st : LoopSt} (h : OutInv P st) (hlt : st.dstIdx < P.dstMasterNum)
-    (sc sp : Nat) (hsp : sp < 2) (ranges : RangeList)
+    (sc sp : Nat) (hsp : sp < 2) (ranges : RangeList) (hfx : compact ranges = ranges)
     (hcount : recvBy P.dstIndex st.out st.dstIdx + slotsNum ranges = P.need st.dstIdx) :
     OutInv P { dstIdx := st.dstIdx + 1, curSlots := [], curNum := 0,
                out := st.out ++ [P.task sc sp st.dstIdx ranges] } := by
@@ -90,11 +90,11 @@ theorem outInv_emit_done {P : OutParams} {st : LoopSt} (h : OutInv P st) (hlt : 
     rcases List.mem_append.mp hms with hms | hms
     · exact h.shape ms hms
     · simp only [List.mem_singleton] at hms; subst hms
-      exact ⟨st.dstIdx, hlt, rfl, rfl, hsp, rfl⟩
+      exact ⟨st.dstIdx, hlt, rfl, rfl, hsp, rfl, hfx⟩
 
 /-- emitting a task keeps the bookkeeping: destination still open -/
 theorem outInv_emit_open {P : OutParams} {st : LoopSt} (h : OutInv P st) (hlt : st.dstIdx < P.dstMasterNum)
-    (sc sp : Nat) (hsp : sp < 2) (ranges : RangeList) (curNum' : Nat)
+    (sc sp : Nat) (hsp : sp < 2) (ranges : RangeList) (hfx : compact ranges = ranges) (curNum' : Nat)
     (hcount : recvBy P.dstIndex st.out st.dstIdx + slotsNum ranges = curNum') :
     OutInv P { dstIdx := st.dstIdx, curSlots := [], curNum := curNum',
                out := st.out ++ [P.task sc sp st.dstIdx ranges] } := by
@@ -118,7 +118,7 @@ theorem outInv_emit_open {P : OutParams} {st : LoopSt} (h : OutInv P st) (hlt : 
     rcases List.mem_append.mp hms with hms | hms
     · exact h.shape ms hms
     · simp only [List.mem_singleton] at hms; subst hms
-      exact ⟨st.dstIdx, hlt, rfl, rfl, hsp, rfl⟩
+      exact ⟨st.dstIdx, hlt, rfl, rfl, hsp, rfl, hfx⟩
 
 def cutLast (rl : RangeList) (last : Range) (cur : RangeList) (curNum removeNum : Nat) :
     RangeList × RangeList × Nat :=
@@ -289,7 +289,7 @@ theorem srcWhile_spec (P : OutParams) (hav : 1 ≤ P.average) (c p : Nat) (hp : 
             · -- the destination is complete
               have hst2 : StInv P (⟨st.dstIdx + 1, [], 0, st.out ++ [P.task c p st.dstIdx (rlNew cur1)]⟩ : LoopSt) := by
                 refine ⟨by simp only; omega, fun _ => P.need_pos hav _, fun _ => ⟨rfl, rfl⟩, ?_⟩
-                exact outInv_emit_done hinv.out hlt c p hp _ (by omega)
+                exact outInv_emit_done hinv.out hlt c p hp (rlNew cur1) (show compact (rlNew cur1) = rlNew cur1 from compact_of_normal (normal_compact cur1)) (by omega)
               have hgiven : P.given (⟨st.dstIdx + 1, [], 0, st.out ++ [P.task c p st.dstIdx (rlNew cur1)]⟩ : LoopSt) = P.given st + moved := by
                 simp only [OutParams.given, sumTo]; omega
               simp only [hA, decide_true, Bool.true_or, if_true] at hres
@@ -306,7 +306,7 @@ theorem srcWhile_spec (P : OutParams) (hav : 1 ≤ P.average) (c p : Nat) (hp : 
               · -- the source is drained, the destination stays open
                 have hst2 : StInv P (⟨st.dstIdx, [], st.curNum + moved, st.out ++ [P.task c p st.dstIdx (rlNew cur1)]⟩ : LoopSt) := by
                   refine ⟨hinv.le, fun _ => hA', fun h => absurd h hD', ?_⟩
-                  exact outInv_emit_open hinv.out hlt c p hp _ _ (by omega)
+                  exact outInv_emit_open hinv.out hlt c p hp (rlNew cur1) (show compact (rlNew cur1) = rlNew cur1 from compact_of_normal (normal_compact cur1)) _ (by omega)
                 simp only [hA, hB, decide_true, decide_false, Bool.or_true, if_true, if_false] at hres
                 subst hres
                 exact ⟨_, _, rfl, ⟨by omega, htasc, rfl, hst2, by simp only [OutParams.given]; omega, by simp,
